@@ -140,7 +140,8 @@ def main(tier, seed):
             rule="exact tier: every grid of 3..6 of the pressures 0.1..0.9 x every pattern of volume increments in {0, 0.1, 0.2} (TLC-enumerated; "
                  + ("all" if thorough else "a seeded 1/12") + f" of {n_all} rows) x 5 method/geometry configurations x {{zero, table}} thickness on the raw functions, "
                  "psd_mesoporous on a sample with limits on/off; observation tier: grids of 10..60 points x volume shapes (smooth, plateaus, single step) x methods x pore "
-                 "geometries x meniscus geometries x built-in thickness models x adsorbate property sets x limits; Kelvin radii for three menisci and KJS; "
+                 "geometries x meniscus geometries x built-in thickness models x adsorbate property sets (three of them at one common temperature, called in turn) x limits "
+                 "x stored representation (K / degC / degC + relative %); Kelvin radii for three menisci and KJS; "
                  "non-trivial = total volume change > 0; distinct = distinct (entry point, configuration, grid, volumes)")
     run.assume("math.log supplies ln p to the Kelvin clause; the built-in thickness curves are inputs (their values are observed, not judged)")
     run.assume("an entry of the result may carry the width of either end of its pressure interval; a point exactly on a limit may or may not be used")
@@ -245,8 +246,12 @@ def adsorbate_sets():
     sets = [("N2", T, dict(gamma=float(n2.surface_tension(T)), mm=float(n2.molar_mass()), rho=float(n2.liquid_density(T)), temp=T))]
     stored_adsorbate("verif_ads_b", cross_sectional_area=Fraction(1, 5), molar_mass=Fraction(30), liquid_density=Fraction(4, 5), surface_tension=Fraction(9))
     sets.append(("verif_ads_b", 100.0, dict(gamma=9.0, mm=30.0, rho=0.8, temp=100.0)))
+    # two further property sets at the SAME temperature as verif_ads_b: anything prepared per (model, meniscus,
+    # temperature) and reused across adsorbates shows up as a wrong Kelvin constant
     stored_adsorbate("verif_ads_c", cross_sectional_area=Fraction(1, 4), molar_mass=Fraction(9987, 250), liquid_density=Fraction(7, 5), surface_tension=Fraction(25, 2))
-    sets.append(("verif_ads_c", 87.3, dict(gamma=12.5, mm=39.948, rho=1.4, temp=87.3)))
+    sets.append(("verif_ads_c", 100.0, dict(gamma=12.5, mm=39.948, rho=1.4, temp=100.0)))
+    stored_adsorbate("verif_ads_d", cross_sectional_area=Fraction(1, 8), molar_mass=Fraction(18), liquid_density=Fraction(1), surface_tension=Fraction(20))
+    sets.append(("verif_ads_d", 100.0, dict(gamma=20.0, mm=18.0, rho=1.0, temp=100.0)))
     return sets
 
 
@@ -319,6 +324,7 @@ def observation_tier(run, judge, rng, thorough, seed):
     rng.shuffle(scen)
     scen = scen[: len(scen) // 2] if thorough else scen[: len(scen) // 12]
     n_not_judged = 0
+    nscen = 0
     for name, T, ad, gi, tname, method, geom, branch, men in scen:
         p = grids[gi]
         tfun = get_thickness_model(tname)
@@ -337,13 +343,17 @@ def observation_tier(run, judge, rng, thorough, seed):
             lo_i, hi_i = (3, len(p) - 3) if use_limits else (0, len(p) - 1)
             if step and not (lo_i + 1 <= step <= hi_i):      # keep the step inside the window
                 lim, lo_i, hi_i = (None, None), 0, len(p) - 1
+            # the same physical isotherm in three stored representations (K / degC / degC and relative %)
+            nscen += 1
+            store = [dict(), dict(temperature_unit="°C"), dict(temperature_unit="°C", pressure_mode="relative%")][nscen % 3]
+            cfg["stored"] = "K, relative" if not store else ("°C" + (", relative%" if "pressure_mode" in store else ", relative"))
             if branch == "ads":
-                iso = point_isotherm(p, V, adsorbate=name, temperature=T, loading_basis="volume_liquid", loading_unit="cm3")
+                iso = point_isotherm(p, V, adsorbate=name, temperature=T, loading_basis="volume_liquid", loading_unit="cm3", **store)
             else:
                 # a two-point adsorption ramp above the grid, then the desorption branch under test coming down
                 pp = numpy.concatenate([[p[0] * 0.5, 0.995], p[::-1]])
                 VV = numpy.concatenate([[V[0], V[-1]], V[::-1]])
-                iso = point_isotherm(pp, VV, adsorbate=name, temperature=T, loading_basis="volume_liquid", loading_unit="cm3")
+                iso = point_isotherm(pp, VV, adsorbate=name, temperature=T, loading_basis="volume_liquid", loading_unit="cm3", **store)
             try:
                 res = psd_mesoporous(iso, psd_model=method, pore_geometry=geom, meniscus_geometry=men or None, branch=branch,
                                      thickness_model=tname, kelvin_model="Kelvin", p_limits=lim)
@@ -375,6 +385,31 @@ def observation_tier(run, judge, rng, thorough, seed):
                 judge.add(psd_record(V, t, None, res, zero, step=step, kmode="eq", lnp=lnp, ad=ad_enc(ad), men=m_eff, branch=branch, pore=geom), site, cfg, det)
             else:
                 n_not_judged += 1
+    # call histories: the same model / meniscus / temperature for alternating adsorbates within one process;
+    # every call is judged like a first call (the Kelvin clause uses the adsorbate's own gamma M / rho)
+    same_t = [x for x in sets if x[1] == 100.0]
+    p = grids[0]
+    lnp = [math.log(x) for x in p]
+    V = volume_shapes(p, rng)[0][1]
+    for kname, men_list in (("Kelvin", MENISCI), ("Kelvin-KJS", ["cylindrical"])):
+        for men in men_list:
+            for rnd in range(2):
+                for name, T, ad in same_t:
+                    for tname in ("zero thickness", "Harkins/Jura"):
+                        cfg = {"method": "pygaps-DH", "pore_geometry": "cylinder", "thickness": tname, "kelvin": kname, "meniscus": men, "branch": "ads",
+                               "tier": "history", "stored": "K, relative"}
+                        t = numpy.asarray(get_thickness_model(tname)(p), dtype=float)
+                        iso = point_isotherm(p, V, adsorbate=name, temperature=T, loading_basis="volume_liquid", loading_unit="cm3")
+                        try:
+                            res = psd_mesoporous(iso, psd_model="pygaps-DH", pore_geometry="cylinder", meniscus_geometry=men, branch="ads",
+                                                 thickness_model=tname, kelvin_model=kname, p_limits=(None, None))
+                        except Exception as e:  # noqa: BLE001
+                            run.violation(dict(sig_of(cfg), site="psd_mesoporous", clause="returns", wrong="exception:" + exc_class(e)), {"adsorbate": name, "message": str(e)[:200]})
+                            continue
+                        run.count(("history", kname, men, rnd, name, tname))
+                        judge.add(psd_record(V, t, None, res, tname == "zero thickness", kmode=("eq" if kname == "Kelvin" else "kjs"), lnp=lnp, ad=ad_enc(ad), men=men,
+                                             branch="ads", pore="cylinder", cum=res["pore_volume_cumulative"]), "psd_mesoporous", cfg,
+                                  {"adsorbate": name, "history": "call %d of the adsorbates %s in turn" % (rnd + 1, [x[0] for x in same_t])})
     # Kelvin-KJS through psd_mesoporous (cylindrical meniscus: adsorption branch of a cylinder)
     for (name, T, ad), gi, tname in itertools.product(sets, range(len(grids)), ("Harkins/Jura", "zero thickness")):
         p = grids[gi]
